@@ -320,16 +320,77 @@ def s2_scale(name, parts_flow, Q, wref, res):
     return (vmax ** 2) * (1.0 + W2 / N ** 2) / N
 
 
+# ------------------------------------------------------------------ the caller's data must not be modified
+class InputModified(Exception):
+    def __init__(self, key, what):
+        super().__init__(what)
+        self.key, self.what = key, what
+
+
+def snapshot(samples):
+    """identity and content of the argument objects before a call: {label: nested list}"""
+    snap = {}
+    for label, outer in samples.items():
+        if any(outer is s_[0] for s_ in snap.values()):
+            continue
+        snap[label] = (outer, [(ev, list(ev), [q.data_.copy() for q in ev]) for ev in outer])
+    return snap
+
+
+def modified(snap):
+    """None or (what, description): how the argument objects differ from the snapshot"""
+    for label, (outer, evs) in snap.items():
+        if len(outer) != len(evs):
+            return "outer-length", f"{label}: number of events {len(evs)} -> {len(outer)}"
+        for i, (ev, parts, datas) in enumerate(evs):
+            if outer[i] is not ev:
+                return "inner-identity", f"{label}: event {i} was replaced by another list object"
+            if len(ev) != len(parts):
+                return "inner-length", f"{label}: event {i} had {len(parts)} particles, now {len(ev)}"
+            for j, (q, d) in enumerate(zip(parts, datas)):
+                if ev[j] is not q:
+                    return "element-identity", f"{label}: event {i} position {j} holds another particle object"
+                if not np.array_equal(q.data_, d, equal_nan=True):
+                    return "particle-data", f"{label}: event {i} particle {j} data_ changed"
+    return None
+
+
+def verify_unmodified(snap, name, method):
+    m = modified(snap)
+    if m:
+        raise InputModified(f"input-modified:{name}:{method}:{m[0]}",
+                            f"{name}.{method} modified the caller's particle lists: {m[1]}")
+
+
+def rp_i(f, evs):
+    parts = mk(evs)
+    snap = snapshot(dict(flow=parts))
+    r = f.integrated_flow(parts)
+    verify_unmodified(snap, "ReactionPlaneFlow", "integrated_flow")
+    return r
+
+
+def rp_d(f, evs, edges, sel):
+    parts = mk(evs)
+    snap = snapshot(dict(flow=parts))
+    r = f.differential_flow(parts, edges, sel)
+    verify_unmodified(snap, "ReactionPlaneFlow", "differential_flow")
+    return r
+
+
 def run_real(name, case, flow, ref, diff_edges=None):
     """returns (value, sigma) or list of them; exceptions propagate"""
     f = new(name, case["n"], case["weight"], case["gap"])
     pf = mk(flow)
     pr = pf if case["same"] and flow is ref else mk(ref)
+    snap = snapshot(dict(flow=pf, reference=pr))
     with np.errstate(all="ignore"):
         if diff_edges is None:
             r = f.integrated_flow(pf, pr, case["self_corr"])
+            verify_unmodified(snap, name, "integrated_flow")
             return (float(r[0]), float(r[1]))
         r = f.differential_flow(pf, diff_edges, case["sel"], pr, case["self_corr"])
+        verify_unmodified(snap, name, "differential_flow")
         return [(float(t[0]), float(t[1])) for t in r]
 
 
@@ -726,7 +787,10 @@ def tight_bin(flow, sel):
 def check_relation(name, rel, case, aux):
     if POOL["on"]:
         POOL["history"].append(dict(estimator=name, relation=rel, case=_case_json(case, "oracle"), aux=aux))
-    return _check_relation(name, rel, case, aux)
+    try:
+        return _check_relation(name, rel, case, aux)
+    except InputModified as e:
+        return (e.key, e.what, dict())
 
 
 def _check_relation(name, rel, case, aux):
@@ -737,13 +801,13 @@ def _check_relation(name, rel, case, aux):
     if name == "ReactionPlaneFlow":
         f = new(name, n)
         with np.errstate(all="ignore"):
-            base = complex(f.integrated_flow(mk(flow)))
-            dbase = [complex(z) for z in f.differential_flow(mk(flow), edges, case["sel"])]
+            base = complex(rp_i(f, flow))
+            dbase = [complex(z) for z in rp_d(f, flow, edges, case["sel"])]
             if rel == "bins":
                 for b, (lo, hi) in enumerate(zip(edges[:-1], edges[1:])):
                     sub = restrict_flow(flow, case["sel"], lo, hi)
                     W = sum(pweight(t) for ev in sub for t in ev)
-                    exp = complex(f.integrated_flow(mk(sub))) if W != 0 else 0j
+                    exp = complex(rp_i(f, sub)) if W != 0 else 0j
                     if abs(exp - dbase[b]) > 1e-11:
                         return (f"{name}-bin-vs-restricted", f"bin [{lo!r}, {hi!r}) of the differential flow as function of "
                                 f"{case['sel']} is {dbase[b]}, the integrated flow of the particles with lo <= x < hi is {exp}",
@@ -751,7 +815,7 @@ def _check_relation(name, rel, case, aux):
                 return None
             if rel == "single-bin":
                 for bins1 in (aux["allbin"], tight_bin(flow, case["sel"])):
-                    one = f.differential_flow(mk(flow), bins1, case["sel"])
+                    one = rp_d(f, flow, bins1, case["sel"])
                     if len(one) != 1 or abs(complex(one[0]) - base) > 1e-11:
                         return (f"{name}-single-bin", f"differential flow over the single bin {bins1} containing every "
                                 f"particle {one} != integrated {base}", dict(expected=flat(base), observed=flat(one), bins=bins1))
@@ -795,8 +859,8 @@ def _check_relation(name, rel, case, aux):
             else:
                 f2, _ = transformed(rel, dict(case, same=True), flow, flow, aux)
                 exp_i, exp_d = base, dbase
-            got_i = complex(f.integrated_flow(mk(f2)))
-            got_d = [complex(z) for z in f.differential_flow(mk(f2), edges, case["sel"])]
+            got_i = complex(rp_i(f, f2))
+            got_d = [complex(z) for z in rp_d(f, f2, edges, case["sel"])]
         if abs(got_i - exp_i) > 1e-10:
             return (f"{name}-{rel}-integrated", f"integrated flow {got_i} after `{rel}`, expected {exp_i}",
                     dict(expected=flat(exp_i), observed=flat(got_i)))
@@ -991,51 +1055,85 @@ def gen_sample(rng, kind, n, nev=None, weights=False):
     return [gen_ev(rng, m0, m1, "mixed" if weights else "unset", split=True, mod=(n, v)) for _ in range(nev)]
 
 
-def _ws_particles(events):
-    return [[P(tuple(t)) for t in ev] for ev in events]
+def _rec(t):
+    """generator spec (px, py, pz, w) -> full record (px, py, pz, E, w) of the mirror"""
+    q = P(tuple(t))
+    return (float(q.px), float(q.py), float(q.pz), float(q.E), t[3])
+
+
+def _from_rec(r):
+    from sparkx.Particle import Particle
+    q = Particle()
+    q.px, q.py, q.pz, q.E = r[0], r[1], r[2], r[3]
+    q.pdg = 211
+    if r[4] is not None:
+        q.weight = r[4]
+    return q
+
+
+def _rebuild(mirror_events):
+    return [[_from_rec(r) for r in ev] for ev in mirror_events]
 
 
 def run_history(steps, stop_at_first=True):
-    """execute a history; returns None or (key, what, detail) for the first call whose result on the long-lived
-    object differs from a fresh object on a deep copy of the same content"""
-    import copy
-    ws, objs = {}, {}
+    """execute a history.  The harness keeps a pristine MIRROR of every sample (records built from the
+    generator's spec, changed only by the harness's own mutation steps).  After every call
+      (1) the live argument objects must be unmodified (list identities, lengths, element identities,
+          particle data_) and equal to the mirror            -> key input-modified:<Estimator>:<method>:<what>
+      (2) the result must equal that of a FRESH estimator on a sample REBUILT from the mirror
+                                                             -> key instance-reuse-<Estimator>-<method>_flow
+    returns None or (key, what, detail) for the first failing call."""
+    ws, mirror, objs = {}, {}, {}
     for i, st in enumerate(steps):
         op = st["op"]
         if op == "build":
-            ws[st["slot"]] = _ws_particles(st["events"])
+            mirror[st["slot"]] = [[_rec(t) for t in ev] for ev in st["events"]]
+            ws[st["slot"]] = _rebuild(mirror[st["slot"]])
         elif op == "refill":
-            ws[st["slot"]][:] = _ws_particles(st["events"])
+            mirror[st["slot"]] = [[_rec(t) for t in ev] for ev in st["events"]]
+            ws[st["slot"]][:] = _rebuild(mirror[st["slot"]])
         elif op == "reverse":
             ws[st["slot"]].reverse()
+            mirror[st["slot"]].reverse()
         elif op == "perm-events":
-            x = ws[st["slot"]]
-            x[:] = [x[j] for j in st["perm"]]
+            for x in (ws[st["slot"]], mirror[st["slot"]]):
+                x[:] = [x[j] for j in st["perm"]]
         elif op == "perm-particles":
-            ev = ws[st["slot"]][st["event"]]
-            ev[:] = [ev[j] for j in st["perm"]]
+            for x in (ws[st["slot"]], mirror[st["slot"]]):
+                ev = x[st["event"]]
+                ev[:] = [ev[j] for j in st["perm"]]
         elif op == "rotate":
-            for ev, a in zip(ws[st["slot"]], st["angles"]):
-                c, sn = math.cos(a), math.sin(a)
-                for q in ev:
+            for k, a_ in enumerate(st["angles"][:len(ws[st["slot"]])]):
+                c, sn = math.cos(a_), math.sin(a_)
+                for q in ws[st["slot"]][k]:
                     q.px, q.py = c * q.px - sn * q.py, sn * q.px + c * q.py
+                mirror[st["slot"]][k] = [(c * r[0] - sn * r[1], sn * r[0] + c * r[1], r[2], r[3], r[4])
+                                         for r in mirror[st["slot"]][k]]
         elif op == "replace-event":
-            new_ev = [P(tuple(t)) for t in st["particles"]]
+            recs = [_rec(t) for t in st["particles"]]
+            new_ev = [_from_rec(r) for r in recs]
             if st.get("in_place"):
                 ws[st["slot"]][st["event"]][:] = new_ev
             else:
                 ws[st["slot"]][st["event"]] = new_ev
+            mirror[st["slot"]][st["event"]] = recs
         elif op == "weights":
-            for q, w in zip(ws[st["slot"]][st["event"]], st["weights"]):
+            ev = ws[st["slot"]][st["event"]]
+            for q, w in zip(ev, st["weights"]):
                 q.weight = w
+            mirror[st["slot"]][st["event"]] = [
+                (r[0], r[1], r[2], r[3], (st["weights"][j] if j < len(st["weights"]) else r[4]))
+                for j, r in enumerate(mirror[st["slot"]][st["event"]])]
         elif op == "call":
             name, ctor = st["est"], tuple(st["ctor"])
             key = (name, ctor)
             if key not in objs:
                 objs[key] = _new(name, *ctor)
-            flow, ref = ws[st["flow"]], ws[st.get("ref") or st["flow"]]
-            cf = copy.deepcopy(flow)
-            cr = cf if ref is flow else copy.deepcopy(ref)
+            fs, rs = st["flow"], st.get("ref") or st["flow"]
+            flow, ref = ws[fs], ws[rs]
+            cf = _rebuild(mirror[fs])
+            cr = cf if rs == fs else _rebuild(mirror[rs])
+            method = st["method"] + "_flow"
 
             def do(obj, a, b):
                 with np.errstate(all="ignore"):
@@ -1051,13 +1149,27 @@ def run_history(steps, stop_at_first=True):
                         return flat([(t[0], t[1]) for t in r])
                     except Exception as e:
                         return "raises " + type(e).__name__
+            hist = [x["op"] if x["op"] != "call" else x["est"][:2] + ":" + x["method"][:4] for x in steps[:i + 1]]
+            snap = snapshot({f"sample {k}": v for k, v in ws.items()})
             got = do(objs[key], flow, ref)
+            m = modified(snap)
+            if not m:
+                # the live content must also still be what the harness put there
+                for k in ws:
+                    live, mir = ws[k], mirror[k]
+                    if len(live) != len(mir) or any(len(a) != len(b) for a, b in zip(live, mir)):
+                        m = ("outer-length", f"sample {k}: shape differs from the harness's mirror")
+                        break
+            if m:
+                return (f"input-modified:{name}:{method}:{m[0]}",
+                        f"step {i}: {name}{ctor}.{method} modified the caller's particle lists: {m[1]} (history {hist})",
+                        dict(expected="arguments unchanged", observed=m[1], step=i))
             exp = do(_new(name, *ctor), cf, cr)
             if not _same_result(got, exp):
-                return (f"instance-reuse-{name}-{st['method']}_flow",
-                        f"step {i}: {name}{ctor}.{st['method']}_flow on the long-lived object gives {got}, a fresh object on a "
-                        f"deep copy of the same content gives {exp} (history of {i + 1} steps: "
-                        f"{[x['op'] if x['op'] != 'call' else x['est'][:2] + ':' + x['method'][:4] for x in steps[:i + 1]]})",
+                return (f"instance-reuse-{name}-{method}",
+                        f"step {i}: {name}{ctor}.{method} on the long-lived object and the live lists gives {got}, a fresh "
+                        f"object on a sample rebuilt from the harness's mirror of the same content gives {exp} "
+                        f"(history of {i + 1} steps: {hist})",
                         dict(expected=exp, observed=got, step=i))
         else:
             raise ValueError("unknown step " + op)
@@ -1106,6 +1218,8 @@ def gen_history(rng, scripted=None):
         sel = rng.choice(DOCUMENTED)
         lo, hi = (0.0, 3.2) if sel == "pT" else (-2.2, 2.2)
         bins = [lo] + sorted(rng.uniform(lo, hi) for _ in range(rng.randint(0, 2))) + [hi]
+        if rng.random() < 0.25:
+            bins = [-1000.0, 1000.0]
         steps.append(dict(op="call", est=e, ctor=ctor, method=method, flow="A", ref="A",
                           self_corr=(toggle // 2) % 2 == 0 if scripted else rng.random() < 0.5, bins=bins, sel=sel))
 
@@ -1241,7 +1355,10 @@ def search(ctx, budget_s):
     n = 0
     for key, what, detail in oracle_tables():
         ctx.violation(key, what, dict(input=detail, how_to_replay="./check C12 --replay <this file>"))
-    r = ep_degenerate_probe()
+    try:
+        r = ep_degenerate_probe()
+    except InputModified:
+        r = None  # reported, with a replayable input, by the call histories / relations below
     if r:
         ctx.violation(r[0], r[1], dict(**r[2], how_to_replay="./check C12 --replay <this file>"))
     for c in corpus():
@@ -1290,7 +1407,14 @@ def search(ctx, budget_s):
                 try:
                     res = check_all(case, aux, names=names)
                 except Exception as e:
-                    res = (names[0], "call", (f"{names[0]}-raises", f"estimator raised {type(e).__name__}: {e}", dict()))
+                    who = names[0]
+                    for nm in names:  # which estimator raised?
+                        try:
+                            check_all(case, aux, names=(nm,))
+                        except Exception:
+                            who = nm
+                            break
+                    res = (who, "call", (f"{who}-raises", f"estimator raised {type(e).__name__}: {e}", dict()))
                 if not res or res[2][0] in found:
                     continue
                 history = list(POOL["history"])
@@ -1379,6 +1503,8 @@ def shrink(case, aux, res):
     def still(c, a):
         try:
             r = _check_relation(name, rel, c, a)
+        except InputModified as e:
+            r = (e.key, e.what, dict())
         except Exception:
             return None
         return r if r and r[0] == key else None
@@ -1473,7 +1599,11 @@ def replay(ctx, path):
                 c = h["case"]
                 c["flow"] = [[tuple(t) for t in ev] for ev in c["flow"]]
                 c["ref"] = c["flow"] if c["same"] else [[tuple(t) for t in ev] for ev in c["ref"]]
-                r = _check_relation(h["estimator"], h["relation"], c, h["aux"])
+                try:
+                    r = _check_relation(h["estimator"], h["relation"], c, h["aux"])
+                except InputModified as e:
+                    r = (e.key, e.what, dict())
+                    break
         finally:
             pool_stop()
         if r:
@@ -1485,7 +1615,14 @@ def replay(ctx, path):
         case = inp["case"]
         case["flow"] = [[tuple(t) for t in ev] for ev in case["flow"]]
         case["ref"] = case["flow"] if case["same"] else [[tuple(t) for t in ev] for ev in case["ref"]]
-        r = check_relation(inp["estimator"], inp["relation"], case, inp["aux"])
+        try:
+            if inp["relation"] == "call":
+                rr = check_all(case, inp["aux"], names=(inp["estimator"],))
+                r = rr[2] if rr else None
+            else:
+                r = check_relation(inp["estimator"], inp["relation"], case, inp["aux"])
+        except Exception as e:
+            r = (d.get("key"), f"estimator raised {type(e).__name__}: {e}")
     elif d.get("key") == KEY_EP_DEGENERATE:
         r = ep_degenerate_probe()
     else:
